@@ -125,6 +125,9 @@ func c04extra() map[string]interface{} {
 		"xidbytes": docB{ID: []byte{1, 2}}, "xidzero": docB{}, "xslugs": &docS{Slug: []string{"a"}}, "xidmap": docM{ID: map[string]int{"a": 1}}, "xidlist": []interface{}{docB{ID: []byte{3}}},
 		// wrappers the sink unwraps through Interface(): one that hands back itself, two that hand back
 		// each other, and an honest one three levels deep
+		// maps whose interface-typed keys hold values of different kinds
+		"xmixnum": map[interface{}]string{1: "a", 2.5: "b"}, "xmixint": map[interface{}]string{int(1): "a", uint(2): "b", int8(3): "c"}, "xmixfs": map[interface{}]int{1.5: 1, "x": 2, 2.5: 3},
+		"xmixall": map[interface{}]interface{}{true: 1, "s": 2, 3: 3, 4.5: 4, [2]int{1, 2}: 5, T0{"k"}: 6, nil: 7, uint8(8): 8}, "xmixstr": map[fmt.Stringer]int{strer{}: 1, &c04lbl{"p"}: 2},
 		"xselfw": c04self{}, "xcycw": c04cycA{}, "xdeepw": c04wrap{c04wrap{c04wrap{7}}}, "xpselfw": &c04self{},
 		"xhcnamed": func(h namedHC) (string, error) {
 			hh := plush.HelperContext(h)
